@@ -39,7 +39,7 @@ theorem mu_tcp (s s' : St) (h : stepTcp s = some s') : mu s' < mu s := by
   · cases h
   · cases h
 
-theorem mu_prx (s s' : St) (ok : Bool) (h : stepPrx false s ok = some s') : mu s' < mu s := by
+theorem mu_prx (s s' : St) (ok : Bool) (h : stepPrx .current s ok = some s') : mu s' < mu s := by
   have h1 := b2n_le s.rxTrig; have h2 := b2n_le s.dispTrig; have h3 := b2n_le s.sepRes; have h4 := b2n_le s.replyRes
   unfold stepPrx at h
   split at h
@@ -88,7 +88,7 @@ theorem mu_disp (s s' : St) (r : Bool) (h : stepDisp s r = some s') : mu s' < mu
     · cases h; fin
     · cases h
   · cases h
-/-! ## invariant of the non-blocking loop under non-failing sends -/
+/-! ## invariant of the code that exists (non-blocking receive loop, send loop that goes on after a failed block) -/
 
 structure Inv (s : St) : Prop where
   noBlocked : s.prx ≠ .blockedRead
@@ -119,7 +119,7 @@ theorem inv_tcp (s s' : St) (hi : Inv s) (h : stepTcp s = some s') : Inv s' := b
   · cases h
   · cases h
 
-theorem inv_prx (s s' : St) (hi : Inv s) (h : stepPrx false s true = some s') : Inv s' := by
+theorem inv_prx (s s' : St) (ok : Bool) (hi : Inv s) (h : stepPrx .current s ok = some s') : Inv s' := by
   obtain ⟨a, b, c, d, e, f, g, g2⟩ := hi
   unfold stepPrx at h
   split at h
@@ -130,9 +130,13 @@ theorem inv_prx (s s' : St) (hi : Inv s) (h : stepPrx false s true = some s') : 
   · split at h
     · cases h; constructor <;> simp_all [RxPc.alive]
     · rename_i t q hq
-      simp only [if_true] at h
-      cases h
-      cases t <;> constructor <;> simp_all [RxPc.alive, resolve]
+      cases ok
+      · simp at h
+        cases h
+        cases t <;> constructor <;> simp_all [RxPc.alive, resolve]
+      · simp only [if_true] at h
+        cases h
+        cases t <;> constructor <;> simp_all [RxPc.alive, resolve]
   · split at h
     · cases h; constructor <;> simp_all [RxPc.alive]
     · cases h; constructor <;> simp_all [RxPc.alive]
@@ -157,7 +161,7 @@ theorem inv_disp (s s' : St) (r : Bool) (hi : Inv s) (h : stepDisp s r = some s'
     · cases h
   · cases h
 
-theorem inv_step (s s' : St) (l : Lbl) (hg : l.good = true) (hi : Inv s) (h : step false s l = some s') : Inv s' := by
+theorem inv_step (s s' : St) (l : Lbl) (hi : Inv s) (h : step .current s l = some s') : Inv s' := by
   cases l with
   | connect =>
     obtain ⟨a, b, c, d, e, f, g, g2⟩ := hi
@@ -178,13 +182,10 @@ theorem inv_step (s s' : St) (l : Lbl) (hg : l.good = true) (hi : Inv s) (h : st
     · cases h; constructor <;> simp_all [RxPc.alive]
     · cases h
   | tcp => exact inv_tcp s s' hi h
-  | prx ok =>
-    cases ok with
-    | true => exact inv_prx s s' hi h
-    | false => simp [Lbl.good] at hg
+  | prx ok => exact inv_prx s s' ok hi h
   | disp r => exact inv_disp s s' r hi h
 
-theorem recv_isSome (s : St) (ok : Bool) (hp : s.prx = .recv) : (stepPrx false s ok).isSome = true := by
+theorem recv_isSome (s : St) (ok : Bool) (hp : s.prx = .recv) : (stepPrx .current s ok).isSome = true := by
   unfold stepPrx
   rw [hp]
   simp only
@@ -194,7 +195,7 @@ theorem recv_isSome (s : St) (ok : Bool) (hp : s.prx = .recv) : (stepPrx false s
   · split <;> rfl
 
 /-- progress -/
-theorem progress (s : St) (hi : Inv s) (hc : s.tcp.closing = true) : (stepTcp s).isSome = true ∨ (stepPrx false s true).isSome = true := by
+theorem progress (s : St) (hi : Inv s) (hc : s.tcp.closing = true) : (stepTcp s).isSome = true ∨ (stepPrx .current s true).isSome = true := by
   obtain ⟨a, b, c, d, e, f, g, g2⟩ := hi
   cases ht : s.tcp <;> simp [ht, TcpPc.closing] at hc
   · left; simp [stepTcp, ht]
@@ -219,7 +220,7 @@ theorem progress (s : St) (hi : Inv s) (hc : s.tcp.closing = true) : (stepTcp s)
   · left; simp [stepTcp, ht]
 /-! ## runs -/
 
-theorem mu_step (s s' : St) (l : Lbl) (hl : l.internal = true) (h : step false s l = some s') : mu s' < mu s := by
+theorem mu_step (s s' : St) (l : Lbl) (hl : l.internal = true) (h : step .current s l = some s') : mu s' < mu s := by
   cases l with
   | connect => simp [Lbl.internal] at hl
   | chunk c => simp [Lbl.internal] at hl
@@ -229,12 +230,12 @@ theorem mu_step (s s' : St) (l : Lbl) (hl : l.internal = true) (h : step false s
   | disp r => exact mu_disp s s' r h
 
 /-- a run of `n` steps of the endpoint's own threads costs at least `n` units of `mu` -/
-theorem run_bound : ∀ (ls : List Lbl) (s s' : St), (∀ l ∈ ls, l.internal = true) → run false s ls = some s' →
+theorem run_bound : ∀ (ls : List Lbl) (s s' : St), (∀ l ∈ ls, l.internal = true) → run .current s ls = some s' →
     mu s' + ls.length ≤ mu s
   | [], s, s', _, h => by simp [run] at h; subst h; simp
   | l :: ls, s, s', hl, h => by
     simp only [run] at h
-    cases hs : step false s l with
+    cases hs : step .current s l with
     | none => rw [hs] at h; cases h
     | some s1 =>
       rw [hs] at h
@@ -242,53 +243,52 @@ theorem run_bound : ∀ (ls : List Lbl) (s s' : St), (∀ l ∈ ls, l.internal =
       have h2 := run_bound ls s1 s' (fun x hx => hl x (by simp [hx])) h
       simp only [List.length_cons]; omega
 
-theorem inv_run : ∀ (ls : List Lbl) (s s' : St), (∀ l ∈ ls, l.good = true) → Inv s → run false s ls = some s' → Inv s'
-  | [], s, s', _, hi, h => by simp [run] at h; subst h; exact hi
-  | l :: ls, s, s', hl, hi, h => by
+theorem inv_run : ∀ (ls : List Lbl) (s s' : St), Inv s → run .current s ls = some s' → Inv s'
+  | [], s, s', hi, h => by simp [run] at h; subst h; exact hi
+  | l :: ls, s, s', hi, h => by
     simp only [run] at h
-    cases hs : step false s l with
+    cases hs : step .current s l with
     | none => rw [hs] at h; cases h
     | some s1 =>
       rw [hs] at h
-      exact inv_run ls s1 s' (fun x hx => hl x (by simp [hx])) (inv_step s s1 l (hl l (by simp)) hi hs) h
+      exact inv_run ls s1 s' (inv_step s s1 l hi hs) h
 
-/-- reachable with the repaired receive loop and without failing sends -/
-def Reachable (s : St) : Prop := ∃ ls, (∀ l ∈ ls, l.good = true) ∧ run false St.init ls = some s
+/-- reachable in the model of the code that exists, by any history (failing sends included) -/
+def Reachable (s : St) : Prop := ∃ ls, run .current St.init ls = some s
 
 theorem inv_reachable (s : St) (h : Reachable s) : Inv s := by
-  obtain ⟨ls, hg, hr⟩ := h
-  exact inv_run ls _ _ hg inv_init hr
+  obtain ⟨ls, hr⟩ := h
+  exact inv_run ls _ _ inv_init hr
 
-theorem reachable_run (s s' : St) (ls : List Lbl) (hg : ∀ l ∈ ls, l.good = true) (h : Reachable s) (hr : run false s ls = some s') :
+theorem reachable_run (s s' : St) (ls : List Lbl) (h : Reachable s) (hr : run .current s ls = some s') :
     Reachable s' := by
-  obtain ⟨l0, hg0, hr0⟩ := h
-  refine ⟨l0 ++ ls, ?_, ?_⟩
-  · intro l hl; rcases List.mem_append.mp hl with h | h
-    · exact hg0 l h
-    · exact hg l h
-  · clear hg0 hg
-    have : ∀ (l0 : List Lbl) (a : St), run false a l0 = some s → run false a (l0 ++ ls) = some s' := by
-      intro l0
-      induction l0 with
-      | nil => intro a ha; simp [run] at ha; subst ha; simpa using hr
-      | cons x xs ih =>
-        intro a ha
-        simp only [run, List.cons_append] at ha ⊢
-        cases hs : step false a x with
-        | none => rw [hs] at ha; cases ha
-        | some a1 => rw [hs] at ha; exact ih a1 ha
-    exact this l0 _ hr0
+  obtain ⟨l0, hr0⟩ := h
+  refine ⟨l0 ++ ls, ?_⟩
+  have : ∀ (l0 : List Lbl) (a : St), run .current a l0 = some s → run .current a (l0 ++ ls) = some s' := by
+    intro l0
+    induction l0 with
+    | nil => intro a ha; simp [run] at ha; subst ha; simpa using hr
+    | cons x xs ih =>
+      intro a ha
+      simp only [run, List.cons_append] at ha ⊢
+      cases hs : step .current a x with
+      | none => rw [hs] at ha; cases ha
+      | some a1 => rw [hs] at ha; exact ih a1 ha
+  exact this l0 _ hr0
 
 /-- whether a step of the protocol receiver thread is enabled does not depend on how a send would end -/
-theorem prx_enabled_indep (b : Bool) (s : St) (ok : Bool) : (stepPrx b s ok).isSome = (stepPrx b s true).isSome := by
+theorem prx_enabled_indep (b : Variant) (s : St) (ok : Bool) : (stepPrx b s ok).isSome = (stepPrx b s true).isSome := by
   unfold stepPrx
   split <;> try rfl
   split
   · rfl
-  · cases ok <;> rfl
+  · cases ok
+    · simp only [Bool.false_eq_true, if_false, if_true]
+      split <;> rfl
+    · rfl
 
 /-- **not wedged**: in a state satisfying the invariant the close sequence, once begun and not finished, always has an enabled step -/
-theorem not_wedged_of_inv (s : St) (hi : Inv s) : wedged false s = false := by
+theorem not_wedged_of_inv (s : St) (hi : Inv s) : wedged .current s = false := by
   cases hc : s.tcp.closing with
   | false => simp [wedged, hc]
   | true =>
@@ -298,14 +298,14 @@ theorem not_wedged_of_inv (s : St) (hi : Inv s) : wedged false s = false := by
     · cases ht : stepTcp s with
       | none => rw [ht] at h; simp at h
       | some x => simp
-    · cases ht : stepPrx false s true with
+    · cases ht : stepPrx .current s true with
       | none => rw [ht] at h; simp at h
       | some x => simp
 
 theorem resolve_tcp (t : Tag) (s : St) : (resolve t s).tcp = s.tcp := by cases t <;> rfl
 
 /-- the connection thread leaves the close sequence only to `done` (never back to `running`) by the endpoint's own steps -/
-theorem closing_step (s s' : St) (l : Lbl) (hl : l.internal = true) (h : step false s l = some s')
+theorem closing_step (s s' : St) (l : Lbl) (hl : l.internal = true) (h : step .current s l = some s')
     (hc : s.tcp.closing = true ∨ s.tcp = .done) : s'.tcp.closing = true ∨ s'.tcp = .done := by
   cases l with
   | connect => simp [Lbl.internal] at hl
@@ -333,12 +333,12 @@ theorem closing_step (s s' : St) (l : Lbl) (hl : l.internal = true) (h : step fa
       all_goals (first | (cases h; rfl) | cases h)
     rw [this]; exact hc
 
-theorem closing_run : ∀ (ls : List Lbl) (s s' : St), (∀ l ∈ ls, l.internal = true) → run false s ls = some s' →
+theorem closing_run : ∀ (ls : List Lbl) (s s' : St), (∀ l ∈ ls, l.internal = true) → run .current s ls = some s' →
     (s.tcp.closing = true ∨ s.tcp = .done) → (s'.tcp.closing = true ∨ s'.tcp = .done)
   | [], s, s', _, h, hc => by simp [run] at h; subst h; exact hc
   | l :: ls, s, s', hl, h, hc => by
     simp only [run] at h
-    cases hs : step false s l with
+    cases hs : step .current s l with
     | none => rw [hs] at h; cases h
     | some s1 =>
       rw [hs] at h
@@ -347,7 +347,7 @@ theorem closing_run : ∀ (ls : List Lbl) (s s' : St), (∀ l ∈ ls, l.internal
 theorem resolve_prx (t : Tag) (s : St) : (resolve t s).prx = s.prx := by cases t <;> rfl
 
 /-- once started, the receiver thread is never "not started" again -/
-theorem started_step (s s' : St) (l : Lbl) (h : step false s l = some s') (hne : s.prx ≠ .notStarted) : s'.prx ≠ .notStarted := by
+theorem started_step (s s' : St) (l : Lbl) (h : step .current s l = some s') (hne : s.prx ≠ .notStarted) : s'.prx ≠ .notStarted := by
   cases l with
   | connect => simp only [step] at h; split at h <;> cases h; simp
   | chunk c => simp only [step] at h; split at h <;> cases h; exact hne
@@ -371,11 +371,11 @@ theorem started_step (s s' : St) (l : Lbl) (h : step false s l = some s') (hne :
     all_goals (try split at h)
     all_goals (first | (cases h; exact hne) | cases h)
 
-theorem started_run : ∀ (ls : List Lbl) (s s' : St), run false s ls = some s' → s.prx ≠ .notStarted → s'.prx ≠ .notStarted
+theorem started_run : ∀ (ls : List Lbl) (s s' : St), run .current s ls = some s' → s.prx ≠ .notStarted → s'.prx ≠ .notStarted
   | [], s, s', h, hne => by simp [run] at h; subst h; exact hne
   | l :: ls, s, s', h, hne => by
     simp only [run] at h
-    cases hs : step false s l with
+    cases hs : step .current s l with
     | none => rw [hs] at h; cases h
     | some s1 =>
       rw [hs] at h
@@ -383,31 +383,31 @@ theorem started_run : ∀ (ls : List Lbl) (s s' : St), run false s ls = some s' 
 
 /-- from every state some maximal run of the endpoint's own (non-failing) steps exists: it ends where nothing more can be done -/
 theorem exists_maximal_run : ∀ (n : Nat) (s : St), mu s ≤ n →
-    ∃ ls s', (∀ l ∈ ls, l.internal = true ∧ l.good = true) ∧ run false s ls = some s' ∧ quiescent false s' = true
+    ∃ ls s', (∀ l ∈ ls, l.internal = true) ∧ run .current s ls = some s' ∧ quiescent .current s' = true
   | n, s, hn => by
-    by_cases hq : quiescent false s = true
+    by_cases hq : quiescent .current s = true
     · exact ⟨[], s, by simp, rfl, hq⟩
     · -- some internal label is enabled; if it is a failing send, the succeeding one is enabled as well
-      have : ∃ l, l.internal = true ∧ l.good = true ∧ (step false s l).isSome = true := by
+      have : ∃ l, l.internal = true ∧ (step .current s l).isSome = true := by
         simp only [quiescent, internals, List.all_cons, List.all_nil, Bool.and_true, Bool.and_eq_true, not_and,
           Option.isNone_iff_eq_none] at hq
-        by_cases h1 : step false s .tcp = none
-        · by_cases h2 : step false s (.prx true) = none
-          · by_cases h3 : step false s (.prx false) = none
-            · by_cases h4 : step false s (.disp true) = none
+        by_cases h1 : step .current s .tcp = none
+        · by_cases h2 : step .current s (.prx true) = none
+          · by_cases h3 : step .current s (.prx false) = none
+            · by_cases h4 : step .current s (.disp true) = none
               · have h5 := hq h1 h2 h3 h4
-                exact ⟨.disp false, rfl, rfl, by cases h : step false s (.disp false) with | none => exact absurd h h5 | some x => rfl⟩
-              · exact ⟨.disp true, rfl, rfl, by cases h : step false s (.disp true) with | none => exact absurd h h4 | some x => rfl⟩
-            · have e := prx_enabled_indep false s false
+                exact ⟨.disp false, rfl, by cases h : step .current s (.disp false) with | none => exact absurd h h5 | some x => rfl⟩
+              · exact ⟨.disp true, rfl, by cases h : step .current s (.disp true) with | none => exact absurd h h4 | some x => rfl⟩
+            · have e := prx_enabled_indep .current s false
               simp only [step] at h2 h3
               rw [h2] at e
-              cases h : stepPrx false s false with
+              cases h : stepPrx .current s false with
               | none => exact absurd h h3
               | some x => rw [h] at e; simp at e
-          · exact ⟨.prx true, rfl, rfl, by cases h : step false s (.prx true) with | none => exact absurd h h2 | some x => rfl⟩
-        · exact ⟨.tcp, rfl, rfl, by cases h : step false s .tcp with | none => exact absurd h h1 | some x => rfl⟩
-      obtain ⟨l, hli, hlg, hen⟩ := this
-      cases hs : step false s l with
+          · exact ⟨.prx true, rfl, by cases h : step .current s (.prx true) with | none => exact absurd h h2 | some x => rfl⟩
+        · exact ⟨.tcp, rfl, by cases h : step .current s .tcp with | none => exact absurd h h1 | some x => rfl⟩
+      obtain ⟨l, hli, hen⟩ := this
+      cases hs : step .current s l with
       | none => rw [hs] at hen; simp at hen
       | some s1 =>
         have hlt := mu_step s s1 l hli hs
@@ -417,7 +417,7 @@ theorem exists_maximal_run : ∀ (n : Nat) (s : St), mu s ≤ n →
           obtain ⟨ls, s', hls, hr, hq'⟩ := exists_maximal_run n s1 (by omega)
           refine ⟨l :: ls, s', ?_, ?_, hq'⟩
           · intro x hx; rcases List.mem_cons.mp hx with rfl | hx
-            · exact ⟨hli, hlg⟩
+            · exact hli
             · exact hls x hx
           · simp only [run, hs]; exact hr
 
@@ -450,7 +450,7 @@ def Ghost (s : St) : Prop :=
 theorem ghost_init : Ghost St.init := by
   simp [Ghost, St.init]
 
-theorem ghost_step (s s' : St) (l : Lbl) (hi : Inv s) (hg : Ghost s) (h : step false s l = some s') : Ghost s' := by
+theorem ghost_step (s s' : St) (l : Lbl) (hi : Inv s) (hg : Ghost s) (h : step .current s l = some s') : Ghost s' := by
   obtain ⟨hm, hj⟩ := hg
   cases l with
   | connect =>
@@ -531,18 +531,18 @@ theorem ghost_step (s s' : St) (l : Lbl) (hi : Inv s) (hg : Ghost s) (h : step f
     all_goals (try split at h)
     all_goals (first | (cases h; exact ⟨hm, hj⟩) | cases h)
 
-theorem ghost_run : ∀ (ls : List Lbl) (s s' : St), (∀ l ∈ ls, l.good = true) → Inv s → Ghost s → run false s ls = some s' → Ghost s'
-  | [], s, s', _, _, hg, h => by simp [run] at h; subst h; exact hg
-  | l :: ls, s, s', hl, hi, hg, h => by
+theorem ghost_run : ∀ (ls : List Lbl) (s s' : St), Inv s → Ghost s → run .current s ls = some s' → Ghost s'
+  | [], s, s', _, hg, h => by simp [run] at h; subst h; exact hg
+  | l :: ls, s, s', hi, hg, h => by
     simp only [run] at h
-    cases hs : step false s l with
+    cases hs : step .current s l with
     | none => rw [hs] at h; cases h
     | some s1 =>
       rw [hs] at h
-      exact ghost_run ls s1 s' (fun x hx => hl x (by simp [hx])) (inv_step s s1 l (hl l (by simp)) hi hs) (ghost_step s s1 l hi hg hs) h
+      exact ghost_run ls s1 s' (inv_step s s1 l hi hs) (ghost_step s s1 l hi hg hs) h
 
 theorem ghost_reachable (s : St) (h : Reachable s) : Ghost s := by
-  obtain ⟨ls, hg, hr⟩ := h
-  exact ghost_run ls _ _ hg inv_init ghost_init hr
+  obtain ⟨ls, hr⟩ := h
+  exact ghost_run ls _ _ inv_init ghost_init hr
 
 end SecsModel.Proofs.HsmsWedge
